@@ -6,6 +6,8 @@ import DosModel.Gen.EventTable
 Line-protocol driver for C18 (grammar: go/props/c18/c18.go).
 
   fe <items>                 `firstEvent` on exactly this arrival order
+  tw <ms> <tokens>           `firstEvent` with its timers firing (window shortened through a hook): `w` = every timer
+                             started so far has fired (one `expire` item per identity observed so far)
   mg <stream/stream/…>       merge + firstEvent, compared as a set (sorted)
   sub <nws> <types> <H> <S> <drop>
                              real adaptor: delivered node events are rendered through the REGENERATED
@@ -106,6 +108,10 @@ def step (line : String) : String :=
   match words line with
   | ["fe", items] =>
     match parseItems items with
+    | some xs => showOut (runItems xs)
+    | none => "bad-op"
+  | ["tw", _, toks] =>
+    match parseTw toks with
     | some xs => showOut (runItems xs)
     | none => "bad-op"
   | ["mg", streams] =>
